@@ -3,7 +3,9 @@ package props
 import (
 	"encoding/json"
 	"fmt"
+	"github.com/xjslang/xjs/token"
 	"os"
+	"reflect"
 	"time"
 
 	"github.com/xjslang/xjs/ast"
@@ -142,7 +144,128 @@ func c03MultiLine(c *core.Ctx) {
 	}
 }
 
+// c03Trivia: two-statement trees in which the first token of the second statement carries leading trivia
+// (trailing comment, own-line comment, blank lines), for every pair (statement that ends without a
+// terminator, statement that starts with a continuation character).
+func c03Trivia(c *core.Ctx) {
+	firsts := []func() *gen.Node{
+		func() *gen.Node { return gen.Ex(gen.I("a")) },
+		func() *gen.Node { return gen.Let("x", gen.I("b")) },
+		func() *gen.Node { return gen.Ret(gen.I("a")) },
+		func() *gen.Node { return gen.Ex(gen.Po("++", gen.I("n"))) },
+		func() *gen.Node { return gen.If(gen.I("c"), gen.Ex(gen.I("a")), nil) },
+		func() *gen.Node { return gen.Ex(gen.As("=", gen.I("y"), gen.F("", nil))) },
+	}
+	seconds := []func() *gen.Node{
+		func() *gen.Node { return gen.Ex(gen.G(gen.I("b"))) },
+		func() *gen.Node { return gen.Ex(gen.Ca(gen.Do(gen.Ar(gen.I("b")), "c"))) },
+		func() *gen.Node { return gen.Ex(gen.U("-", gen.I("b"))) },
+		func() *gen.Node { return gen.Ex(gen.U("++", gen.I("b"))) },
+		func() *gen.Node { return gen.Ex(gen.T_("`t`")) },
+		func() *gen.Node { return gen.Ex(gen.I("z")) },
+	}
+	trivia := [][]string{{" note"}, {"", " own line"}, {"", ""}, {"", "", " after blank"}, {" t", " u"}}
+	for fi, f := range firsts {
+		for si, s := range seconds {
+			for ti, tr := range trivia {
+				if !c.Next() || c.Tick() {
+					continue
+				}
+				for wrap := 0; wrap < 2; wrap++ {
+					prog := []*gen.Node{f(), s()}
+					if wrap == 1 {
+						prog = []*gen.Node{gen.Func("g", nil, f(), s())}
+					}
+					for ci, cfg := range c03Cfgs {
+						x := toXProgram(prog)
+						list := x.Statements
+						if wrap == 1 {
+							list = x.Statements[0].(*ast.FunctionDeclaration).Body.Statements
+						}
+						if !setLeadingTrivia(list[1], tr) {
+							continue
+						}
+						c.Inc("print_parse_roundtrips")
+						c.Inc("trivia_tree_roundtrips")
+						k, d := c03CheckX(x, gen.ShapeProgram(prog), cfg)
+						if k != "" && c.ShrinkOK("trivia"+k) {
+							pl, _ := json.Marshal(c03Payload{Deep: []int{-2, fi, si, ti, wrap, ci}})
+							c.Violate(core.Violation{Kind: k, Config: cfg.String(), Case: fmt.Sprintf("%s with trivia %q on the first token of the second statement", gen.ShapeProgram(prog), tr), Detail: core.Short(d, 500), Payload: pl, Size: 12})
+						}
+					}
+				}
+			}
+		}
+	}
+}
+
+// setLeadingTrivia puts comments on the leftmost token of a statement of a programmatically built tree.
+func setLeadingTrivia(st ast.Statement, tr []string) bool {
+	var n any = st
+	for depth := 0; depth < 50; depth++ {
+		switch e := n.(type) {
+		case *ast.ExpressionStatement:
+			n = e.Expression
+			continue
+		case *ast.BinaryExpression:
+			n = e.Left
+			continue
+		case *ast.PostfixExpression:
+			n = e.Left
+			continue
+		case *ast.CallExpression:
+			n = e.Function
+			continue
+		case *ast.MemberExpression:
+			n = e.Object
+			continue
+		case *ast.AssignmentExpression:
+			n = e.Left
+			continue
+		case *ast.CompoundAssignmentExpression:
+			n = e.Left
+			continue
+		}
+		v := reflect.ValueOf(n)
+		if v.Kind() != reflect.Ptr || v.IsNil() {
+			return false
+		}
+		f := v.Elem().FieldByName("Token")
+		if !f.IsValid() || !f.CanSet() {
+			return false
+		}
+		t := f.Interface().(token.Token)
+		t.LeadingComments = append([]string{}, tr...)
+		f.Set(reflect.ValueOf(t))
+		return true
+	}
+	return false
+}
+
+// c03CheckX is c03Check for an already built xjs tree.
+func c03CheckX(x *ast.Program, want string, cfg Cfg) (kind, detail string) {
+	co := compileCfg(x, cfg)
+	if co.Panic != "" {
+		return "compile-panic", co.Panic
+	}
+	o := parseMode(co.Code, Mode{})
+	if o.Panic != "" {
+		return "parse-panic", o.Panic
+	}
+	if o.Err != nil {
+		return "reparse-rejected", fmt.Sprintf("printed %q does not parse: %v (tree %s)", co.Code, o.Errs[0].Message, want)
+	}
+	if got := ref.XStmts(o.Prog.Statements); got != want {
+		return "reparse-shape", fmt.Sprintf("printed %q parses to %s, tree was %s", co.Code, got, want)
+	}
+	if co2 := compileCfg(o.Prog, cfg); co2.Code != co.Code {
+		return "not-fixed-point", fmt.Sprintf("printed %q, re-parsed and printed again %q", co.Code, co2.Code)
+	}
+	return "", ""
+}
+
 func c03Run(c *core.Ctx) {
+	c03Trivia(c)
 	c03MultiLine(c)
 	c03Edited(c)
 	c03Deep(c)
@@ -295,6 +418,10 @@ func c03Replay(pl json.RawMessage) (string, []core.Violation) {
 	var vs []core.Violation
 	if len(p.Deep) > 0 {
 		cx := core.NewCtx("C03", "thorough", 0, 0, 1, time.Now().Add(10*time.Minute))
+		if p.Deep[0] == -2 {
+			c03Trivia(cx)
+			return "trivia family re-run", cx.Violations()
+		}
 		if p.Deep[0] < 0 {
 			c03MultiLine(cx)
 			return "multi-line literal family re-run", cx.Violations()
